@@ -19,6 +19,7 @@ import atexit
 import concurrent.futures
 import json
 import os
+import random
 import subprocess
 import sys
 import threading
@@ -84,7 +85,7 @@ def prim_table():
 
 # ------------------------------------------------------------------ generation
 
-USE_OPS = ["construct", "serialize", "deserialize", "toSchema", "createSerializer", "trusted"]
+USE_OPS = ["construct", "serialize", "deserialize", "toSchema", "schemaCode", "createSerializer", "trusted"]
 TYPE_NAMES = ["User", "Acct", "Item"]
 CLASS_NAMES = ["K", "K", "Person", "Order", "Order", "Node"]
 FLAGS = {"addProps": True, "compact": False, "failFast": True}
@@ -161,9 +162,98 @@ def gen_fast_hierarchy_case(rng, tier, idx):
     return {"suite": "world", "types": [], "ops": ops, "n": idx}
 
 
+SCOPED_PRIMS = sorted(X.PRIM_SRC)
+SCOPED_NAMES = ["Address", "Item", "Person", "Order"]
+
+
+def gen_scoped_case(rng, tier, idx, force_clash=None):
+    """classes written to a module file on disk (string annotations: `from __future__ import annotations`, or
+    quoted references), some at module level, some inside one or two functions, with class NAMES drawn from a
+    pool of four so that a function-local class and a module-level class often share a name; fields refer to
+    other classes BY NAME, resolved as Python resolves them (function locals first, then module globals)"""
+    mode = rng.choice(["future", "future", "quoted"])
+    n_classes = rng.randint(3, 6)
+    srcs, ops = {}, []
+    local_bind = {}     # scope -> {name: cid} (latest binding)
+    global_bind = {}    # name -> cid
+    fcount = [0]
+    clash = rng.random() < 0.7 if force_clash is None else force_clash
+    global_refs = {}    # scope -> names used there as module-level names: Python makes a name bound ANYWHERE in a
+                        # function local to the whole function, so such a name may never be bound in that scope
+
+    def resolve(name, scope):
+        if scope != "module" and name in local_bind.get(scope, {}):
+            return local_bind[scope][name]
+        return global_bind.get(name)
+
+    for c in range(n_classes):
+        scope = rng.choice(["module", 1, 1, 2])
+        if clash and c == 0:
+            scope = "module"
+        name = rng.choice(SCOPED_NAMES)
+        if clash and c == 1:
+            scope, name = 1, srcs[0]["name"]          # a function-local class named like a module-level one
+        if clash and c == 2:
+            scope = 1
+        if scope != "module" and name in global_refs.get(scope, ()):
+            name = rng.choice([n for n in SCOPED_NAMES + ["Extra"] if n not in global_refs[scope]])
+        visible = [t for t in range(c) if resolve(srcs[t]["name"], scope) == t and srcs[t]["name"] != name]
+        if clash and c == 2:
+            visible = [t for t in visible if t == 1] or visible
+        parent = None
+        fast = rng.random() < 0.2
+        inherit_from = [t for t in visible if not srcs[t]["fast"]] if not fast else [t for t in visible if srcs[t]["fast"]]
+        if inherit_from and rng.random() < 0.2:
+            parent = {"kind": "inherit", "c": rng.choice(inherit_from)}
+            fast = srcs[parent["c"]]["fast"]
+        taken = set()
+        t_ = parent
+        while t_:
+            taken |= {f["name"] for f in srcs[t_["c"]]["fields"]}
+            t_ = srcs[t_["c"]].get("parent")
+        fields = []
+        for _ in range(rng.randint(1, 3)):
+            free = [n for n in NAME_POOL if n not in taken]
+            if free and rng.random() < 0.5:
+                fname = rng.choice(free)
+            else:
+                fcount[0] += 1
+                fname = "f%d_v" % fcount[0]
+            taken.add(fname)
+            refable = [t for t in visible if not srcs[t]["fast"]] if not fast else []
+            if refable and (rng.random() < 0.5 or (clash and c == 2 and not fields)):
+                tgt = 1 if (clash and c == 2 and 1 in refable) else rng.choice(refable)
+                f = {"name": fname, "kind": {"ref": tgt, "arr": rng.random() < 0.4}, "key": fname}
+            else:
+                tag = rng.choice(SCOPED_PRIMS)
+                f = {"name": fname, "kind": {"prim": tag}, "key": ("m_" + fname) if rng.random() < 0.2 else fname}
+                if X.PRIM_SRC[tag][1] is not None and rng.random() < 0.35:
+                    f["default"] = True
+            fields.append(f)
+        if scope != "module":
+            used = [f["kind"]["ref"] for f in fields if "ref" in f["kind"]] + ([parent["c"]] if parent else [])
+            for t in used:
+                if srcs[t]["scope"] == "module":
+                    global_refs.setdefault(scope, set()).add(srcs[t]["name"])
+        srcs[c] = {"name": name, "parent": parent, "fields": fields, "fast": fast, "addProps": None,
+                   "ignoreNone": rng.random() < 0.2, "scope": scope}
+        if scope == "module":
+            global_bind[name] = c
+        else:
+            local_bind.setdefault(scope, {})[name] = c
+        ops.append({"op": "define", "c": c, "src": srcs[c]})
+        for _ in range(rng.randint(0, 2)):
+            k = rng.choice(USE_OPS)
+            ops.append({"op": k, "c": rng.randrange(c + 1), "probe": "valid"})
+    return {"suite": "world", "types": [], "ops": ops, "n": idx, "scoped": {"mode": mode}}
+
+
 def gen_case(rng, tier, idx):
-    if rng.random() < 0.2:
+    r0 = rng.random()
+    if r0 < 0.2:
         return gen_fast_hierarchy_case(rng, tier, idx)
+    if r0 < 0.32:
+        return gen_scoped_case(rng, tier, idx)
     prims = prim_table()
     n_types = rng.randint(1, 4)
     types = [{"id": i, "name": rng.choice(TYPE_NAMES[:2] if rng.random() < 0.7 else TYPE_NAMES)} for i in range(n_types)]
@@ -393,6 +483,14 @@ def directed_cases():
                         [("construct", 2, {"probe": "required"}), ("construct", 0, {}), ("createSerializer", 1, {})]):
                     out.append({"suite": "world", "types": [], "n": -1, "ops": defs + [
                         dict({"op": k, "c": c_, "probe": "valid"}, **extra) for k, c_, extra in hist]})
+    # region: date/time/ip/host kinds WITH a default in one class and WITHOUT in another (same and sibling
+    # kinds share a JSON-schema shape); the defaulted class is schema-mapped first
+    for ta, tb in ((18, 18), (18, 20), (20, 18), (19, 21), (21, 19), (19, 19), (23, 23), (24, 24), (20, 20), (21, 21)):
+        for first in ("toSchema", "schemaCode"):
+            out.append({"suite": "world", "types": [], "n": -1, "ops": [
+                {"op": "define", "c": 0, "src": cls("Event", [fld("day", {"prim": ta}, default=True), fld("id", {"prim": 0})])},
+                {"op": "define", "c": 1, "src": cls("Visit", [fld("when", {"prim": tb}), fld("name", {"prim": 2})])},
+                {"op": first, "c": 0, "probe": "valid"}, {"op": "toSchema", "c": 1, "probe": "valid"}]})
     # region: every derivation operator applied to a class with optional, defaulted and renamed fields; the
     # source class is used before and after
     src_ = cls("S", [fld("a", {"prim": 0}, key="m_a"), fld("b", {"prim": 2}, default=True),
@@ -418,7 +516,9 @@ def directed_cases():
 
 
 def gen_cases(rng, tier, n):
-    return directed_cases() + [gen_case(rng, tier, i) for i in range(n)]
+    fixed = random.Random(20260926)
+    scoped = [gen_scoped_case(fixed, tier, -1, force_clash=True) for _ in range(30)]
+    return directed_cases() + scoped + [gen_case(rng, tier, i) for i in range(n)]
 
 
 # ------------------------------------------------------------------ dependency closure / slices
@@ -479,7 +579,7 @@ def class_ids(case):
 
 def run_impl_now(case):
     ids = class_ids(case)
-    hist = call({"types": case["types"], "ops": case["ops"], "fp": ids})
+    hist = call({"types": case["types"], "ops": case["ops"], "fp": ids, "scoped": case.get("scoped")})
     if "harness_exc" in hist:
         return hist
     alone = {}
@@ -487,7 +587,7 @@ def run_impl_now(case):
     for c in ids:
         keep = deps_of(case, c)
         closures[str(c)] = sorted(keep)
-        r = call({"types": case["types"], "ops": slice_ops(case, keep), "fp": [c]})
+        r = call({"types": case["types"], "ops": slice_ops(case, keep), "fp": [c], "scoped": case.get("scoped")})
         if "harness_exc" in r:
             return r
         alone[str(c)] = {"fp": r["fp"].get(str(c)), "state": r["state"].get(str(c)),
